@@ -1,6 +1,7 @@
 pub mod c01;
 pub mod c02;
 pub mod c03;
+pub mod c06;
 pub mod c10;
 
 use crate::engine::Prop;
@@ -10,6 +11,7 @@ pub fn get(id: &str) -> Option<Box<dyn Prop>> {
     "C01" => Some(Box::new(c01::C01)),
     "C02" => Some(Box::new(c02::C02)),
     "C03" => Some(Box::new(c03::C03)),
+    "C06" => Some(Box::new(c06::C06)),
     "C10" => Some(Box::new(c10::C10)),
     _ => None,
   }
